@@ -44,7 +44,7 @@ def translate(ctx):
     units = [("field_component_parity", "gen_parity", a4, "option Z", TrSym(enums=en, types={"normal": "bool"}), True),
              ("component_sits_on_plane", "gen_sits", a4[:3], "option bool", TrSym(enums=en), True),
              ("mirror_pairs_on_plane", "gen_pairs", a4, "bool", TrSym(enums=en, calls={"component_sits_on_plane": "sits_b"}), False)]
-    tac = ("Proof. intros ft c a w; destruct ft; cbv beta delta [{g} {m} ftype_eqb sits_b component_sits_on_plane] iota zeta; "
+    tac = ("Proof. intros ft c a w; destruct ft; cbv beta delta [{g} {m} ftype_eqb sits_b component_sits_on_plane Z.opp] iota zeta; "
            "repeat match goal with |- context [Z.eqb ?x ?y] => destruct (Z.eqb x y) end; reflexivity. Qed.\n")
     for name, g, args, ret, tr, part in units:
         try:
@@ -123,10 +123,10 @@ def twin_of(dk):
 
 
 def placed_spec(rng, sym):
-    n = [8, 6, 8]
-    box = [[1, 7], [1, 5], [1, 7]]
-    inner = [[4, 7], [1, 5], [2, 6]]          # starts on the x plane without crossing it
-    up = [[5, 7], [3, 5], [4, 7]]             # entirely in the kept half
+    n = [6, 4, 6]
+    box = [[1, 5], [1, 3], [1, 5]]
+    inner = [[3, 5], [1, 3], [2, 4]]          # starts on the x plane without crossing it
+    up = [[4, 5], [2, 3], [3, 5]]             # entirely in the kept half
     dets = []
     for ex in (True, False):
         tag = "x" if ex else "n"
@@ -145,7 +145,7 @@ def placed_spec(rng, sym):
     for d in dets:
         d["opts"]["direction"] = "+" if d["kind"] == "poynting" else None
         d["opts"] = {k: v for k, v in d["opts"].items() if v is not None}
-    return {"shape": n, "spacing": 1e-7, "steps": 2, "symmetry": list(sym), "thickness": 1,
+    return {"shape": n, "spacing": 1e-7, "steps": 1, "symmetry": list(sym), "thickness": 1,
             "bt": {f: "pec" for f in ("min_x", "max_x", "min_y", "max_y", "min_z", "max_z")}, "detectors": dets}
 
 
@@ -196,7 +196,7 @@ def run_cases(ctx, cases):
     heavy = [c for c in cases if c["kind"] == "placed"]
     from concurrent.futures import ThreadPoolExecutor
     with ThreadPoolExecutor(2) as ex:
-        fl_ = ex.submit(lambda: core.run_impl_sharded(IMPL, light, shard=2))
+        fl_ = ex.submit(lambda: core.run_impl_sharded(IMPL, light, shard=ctx.pick(1, 3)))
         fh_ = ex.submit(lambda: core.run_impl_sharded(IMPL, heavy, shard=min(len(heavy), ctx.pick(2, 4))) if heavy else [])
         ol, oh = fl_.result(), fh_.result()
     il, ih = iter(ol), iter(oh)
